@@ -66,3 +66,10 @@ add("C18", "model_checking",
     "compiled (g++) and exercised on the solver's witnesses and a battery.",
     "Skeleton family and probe length as in evidence; the C++ Match loop is only exercised concretely. One open known finding (C++ matcher loops on "
     "nested nullable repetitions).")
+
+add("C25", "model_checking",
+    "bounded symbolic execution (CrossHair/z3) of read_from_directory over in-memory directory trees with symbolic names and contents, path trees exhausted per tree shape",
+    "The real read_from_directory runs on a fake pathlib tree: every shape of up to 3 (4) entries, names symbolic over all of Unicode, contents symbolic or undecodable; "
+    "the result must be exactly {relative POSIX path -> stripped content} over the visible files, or errors naming every offending file; never an exception. "
+    "The key regular expression is encoded as an NFA reachability term read from the real compiled pattern.",
+    "pathlib is replaced by vf.fakefs (validated against a real directory on every run); witnesses are replayed on a real temporary directory. Bounds in evidence.")
